@@ -619,6 +619,91 @@ pub(crate) fn c06_run(rep: &mut Report, wf: &Wf, plan: &Plan, sched: &str, refer
     }
 }
 
+/// cross reads: the payload of a message parsed by one parser, read through the other interface
+/// (async-parsed payload via blocking Read = block_on bridge; blocking-parsed payload via AsyncRead = AllowStdIo bridge),
+/// with not-ready / interrupted results inside the payload region
+pub(crate) fn c06_cross(rep: &mut Report, wf: &Wf, rng: &mut Rng, replay: &[String]) {
+    let payload = &wf.bytes[wf.head_len..];
+    if payload.is_empty() {
+        return;
+    }
+    let mk_steps = |rng: &mut Rng, is_async: bool| -> Vec<Step> {
+        let mut steps = vec![];
+        for i in 0..rng.range(2, 12) {
+            if is_async {
+                steps.push(Step::Pending { deferred: i % 2 == 1 });
+            } else {
+                steps.push(Step::Interrupted);
+            }
+            steps.push(Step::Chunk(rng.range(1, payload.len().max(1).min(5000))));
+        }
+        steps
+    };
+    // async parse, then blocking read of the payload
+    rep.eval();
+    rep.count("cross_async_parse_blocking_payload", 1);
+    let plan = Plan { steps: mk_steps(rng, true), fallback: Fallback::Full, fail_at: None, steps_start: wf.head_len, fail_once: false, thread_wake: true };
+    let (src, shared) = Scripted::new(wf.bytes.clone(), plan);
+    let sh = [shared];
+    let parsed = catch(|| src::run(AsyncIppParser::new(AsyncIppReader::new(src)).parse(), &sh, MAX_IDLE_POLLS));
+    match parsed {
+        Ok((Exec::Ready(Ok(resp)), _)) => {
+            let (tx, rx) = std::sync::mpsc::channel();
+            std::thread::spawn(move || {
+                let mut resp = resp;
+                let mut rest = vec![];
+                let r = catch(|| read_all_sync(resp.payload_mut(), &mut rest));
+                let _ = tx.send((r, rest));
+            });
+            match rx.recv_timeout(std::time::Duration::from_secs(300)) {
+                Ok((Ok(Ok(())), rest)) if rest == payload => {}
+                Ok((Ok(r), rest)) => rep.violation(
+                    "C06:cross:async-parsed-payload-via-blocking-read",
+                    format!("{}: payload of an async-parsed message read through std::io::Read with a not-ready source: {r:?}, {} of {} bytes, first difference at {}", wf.label, rest.len(), payload.len(), first_diff(&rest, payload)),
+                    replay.to_vec(),
+                ),
+                Ok((Err(p), _)) => rep.violation("C06:cross:panic", format!("{}: {p}", wf.label), replay.to_vec()),
+                Err(_) => rep.inconclusive(format!("watchdog: blocking read of an async payload did not finish within 300 s ({})", wf.label)),
+            }
+        }
+        Ok((Exec::Ready(Err(e)), _)) => rep.violation("C06:cross:parse-error", format!("{}: {:?}", wf.label, errk(&e)), replay.to_vec()),
+        Ok(_) => rep.violation("C06:cross:hang", wf.label.clone(), replay.to_vec()),
+        Err(p) => rep.violation("C06:cross:panic", format!("{}: {p}", wf.label), replay.to_vec()),
+    }
+    // blocking parse, then async read of the payload
+    rep.eval();
+    rep.count("cross_blocking_parse_async_payload", 1);
+    let plan = Plan { steps: mk_steps(rng, false), fallback: Fallback::Full, fail_at: None, steps_start: wf.head_len, fail_once: false, thread_wake: false };
+    let (src, shared) = Scripted::new(wf.bytes.clone(), plan);
+    let sh = [shared];
+    match catch(move || IppParser::new(IppReader::new(src)).parse()) {
+        Ok(Ok(mut resp)) => {
+            let r = catch(|| {
+                src::run(
+                    async {
+                        let mut rest = vec![];
+                        futures_util::io::AsyncReadExt::read_to_end(resp.payload_mut(), &mut rest).await.map(|_| rest)
+                    },
+                    &sh,
+                    MAX_IDLE_POLLS,
+                )
+            });
+            match r {
+                Ok((Exec::Ready(Ok(rest)), _)) if rest == payload => {}
+                Ok((Exec::Ready(other), _)) => rep.violation(
+                    "C06:cross:blocking-parsed-payload-via-async-read",
+                    format!("{}: payload of a blocking-parsed message read through AsyncRead with interrupted reads: {:?} (expected {} bytes)", wf.label, other.map(|v| v.len()).map_err(|e| e.kind()), payload.len()),
+                    replay.to_vec(),
+                ),
+                Ok(_) => rep.violation("C06:cross:hang", wf.label.clone(), replay.to_vec()),
+                Err(p) => rep.violation("C06:cross:panic", format!("{}: {p}", wf.label), replay.to_vec()),
+            }
+        }
+        Ok(Err(e)) => rep.violation("C06:cross:parse-error", format!("{}: {:?}", wf.label, errk(&e)), replay.to_vec()),
+        Err(p) => rep.violation("C06:cross:panic", format!("{}: {p}", wf.label), replay.to_vec()),
+    }
+}
+
 pub fn run_c06(args: &Args, tier: &str, seed: u64) -> Report {
     let n: u64 = args.u64("--cases", tier_pick(tier, 4_000, 150_000));
     let only = args.get("--only").and_then(|s| s.parse::<u64>().ok());
@@ -678,6 +763,7 @@ pub fn run_c06(args: &Args, tier: &str, seed: u64) -> Report {
                 c06_run(&mut rep, &wf, &plan, &format!("random/pat{pat}"), &reference, &replay);
                 rep.count("schedules", 2);
             }
+            c06_cross(&mut rep, &wf, &mut r, &replay);
             // interrupted before every read (blocking) / pending before every read (async)
             {
                 let mut steps = vec![];
@@ -705,7 +791,7 @@ pub fn run_c06(args: &Args, tier: &str, seed: u64) -> Report {
         rep
     });
     let mut rep = merge_all("C06", tier, seed, parts);
-    rep.rule = format!("Well-formed messages (G1/G2, plus short messages) x payloads (empty, 1 byte, tag look-alikes, a second complete IPP message, random up to MiBs) x read schedules (whole: the source honours the full requested size so any read-ahead over-consumes; 1-byte; uniform; random compositions with Interrupted (blocking) / Pending immediate+deferred (async) steps; Interrupted/Pending before every read; ALL 2^(n-1) compositions of the header+attributes for messages of 9..{max_all} bytes). Monitors on the scripted source's log: bytes delivered at return of parse / parse_parts == offset just past the end-of-attributes tag (computed by the reference decoder); reader from parse_parts yields exactly the rest; payload byte-identical; result == unfragmented result. Four entry points per (message, schedule): blocking/async x parse/parse_parts. evaluations = entry-point runs; distinct_nontrivial = distinct messages carrying a payload.");
+    rep.rule = format!("Well-formed messages (G1/G2, plus short messages) x payloads (empty, 1 byte, tag look-alikes, a second complete IPP message, random up to MiBs) x read schedules (whole: the source honours the full requested size so any read-ahead over-consumes; 1-byte; uniform; random compositions with Interrupted (blocking) / Pending immediate+deferred (async) steps; Interrupted/Pending before every read; ALL 2^(n-1) compositions of the header+attributes for messages of 9..{max_all} bytes). Monitors on the scripted source's log: bytes delivered at return of parse / parse_parts == offset just past the end-of-attributes tag (computed by the reference decoder); reader from parse_parts yields exactly the rest; payload byte-identical; result == unfragmented result. Four entry points per (message, schedule): blocking/async x parse/parse_parts; plus two cross reads per message: the payload of an async-parsed message through std::io::Read and of a blocking-parsed message through AsyncRead, with not-ready / interrupted results inside the payload region. evaluations = entry-point runs; distinct_nontrivial = distinct messages carrying a payload.");
     if only.is_none() {
         rep.require(rep.counters.get("schedules_compositions").copied().unwrap_or(0) > 50_000, "exhaustive compositions executed");
         rep.require(rep.counters.get("deferred_wakes").copied().unwrap_or(0) > 1000, "deferred wake-ups observed");
@@ -836,7 +922,7 @@ pub fn run_c07(args: &Args, tier: &str, seed: u64) -> Report {
                 for (ki, &kind) in FAULT_KINDS.iter().enumerate() {
                     // persistent fault (the source keeps failing) and transient fault (fails once, then carries on): both are single faults
                     for once in [false, true] {
-                        let mk = |fb: Fallback| Plan { steps: vec![], fallback: fb, fail_at: Some((off, kind)), fail_once: once, thread_wake: false };
+                        let mk = |fb: Fallback| Plan { steps: vec![], fallback: fb, fail_at: Some((off, kind)), steps_start: 0, fail_once: once, thread_wake: false };
                         let mode = if once { "transient" } else { "persistent" };
                         rep.eval();
                         rep.count("faults_blocking", 1);
